@@ -90,6 +90,10 @@ func (t Tuple) M__getitem__(key Object) (Object, error) {
 			return nil, err
 		}
 		if step == 1 {
+			if slicelength == 0 {
+				// start may be beyond stop, eg t[3:1]
+				return Tuple{}, nil
+			}
 			// Return a subslice since tuples are immutable
 			return t[start:stop], nil
 		}
